@@ -138,8 +138,21 @@ func argOf(c ssa.CallInstruction, i int) ssa.Value {
 }
 
 func isNil(v ssa.Value) bool {
-	c, ok := v.(*ssa.Const)
+	c, ok := core.Strip(v).(*ssa.Const)
+	if !ok {
+		c, ok = v.(*ssa.Const)
+	}
 	return ok && c.Value == nil
+}
+
+// asConst sees through value-preserving conversions and defer-spilled results
+// (`*t0 = 1; rundefers; t1 = *t0; return t1`).
+func asConst(v ssa.Value) (*ssa.Const, bool) {
+	if c, ok := v.(*ssa.Const); ok {
+		return c, true
+	}
+	c, ok := core.Strip(v).(*ssa.Const)
+	return c, ok
 }
 
 // storesToField lists stores in fn (and closures) to field f.
